@@ -336,7 +336,13 @@ func sameValue(m rs.Value, v *lisp.LVal, path string) string {
 type program struct {
 	prelude []string
 	n       int
+	prefix  string    // name prefix (keeps a second build in the same runtime apart)
+	lets    []binding // local validators bound by a let around the top construction
+	params  []binding // local validators passed as parameters of a constructing function
+	outer   int       // >0 while rendering text that is evaluated OUTSIDE those scopes
 }
+
+type binding struct{ name, expr string }
 
 const typedefs = "(deftype tv (x) x)\n(deftype tw (x) x)\n"
 
@@ -446,15 +452,36 @@ func (p *program) ref(r *rs.Ref) string {
 		return p.con(r.Con)
 	case "inline":
 		p.n++
-		return p.makeValidator(r.Schema, fmt.Sprintf("i%d", p.n))
+		return p.makeValidator(r.Schema, fmt.Sprintf("%si%d", p.prefix, p.n))
+	case "letsym", "paramsym":
+		p.n++
+		if p.outer > 0 {
+			// evaluated outside the local scope: the validator itself
+			return p.makeValidator(r.Schema, fmt.Sprintf("%si%d", p.prefix, p.n))
+		}
+		name := fmt.Sprintf("%sx%d", p.prefix, p.n)
+		p.outer++
+		b := binding{name, p.makeValidator(r.Schema, name)}
+		if r.Decoy != nil {
+			p.prelude = append(p.prelude, p.defType(r.Decoy, name))
+		}
+		p.outer--
+		if r.Kind == "letsym" {
+			p.lets = append(p.lets, b)
+		} else {
+			p.params = append(p.params, b)
+		}
+		return "'" + name
 	case "defsym", "defval":
 		// build the nested type first (its own nested types before it)
 		text := ""
 		p.n++
-		name := fmt.Sprintf("n%d", p.n)
+		name := fmt.Sprintf("%sn%d", p.prefix, p.n)
 		sc := *r.Schema
 		sc.Typedef = false // s:deftype has no typedef form: same schema, string-name form
+		p.outer++
 		text = p.defType(&sc, name)
+		p.outer--
 		p.prelude = append(p.prelude, text)
 		if r.Kind == "defsym" {
 			return "'" + name
@@ -468,13 +495,41 @@ func (p *program) ref(r *rs.Ref) string {
 
 // buildText renders the program that defines the validator under test and
 // binds it to the symbol vt.
-func buildText(s *rs.Schema, mode string) string {
-	p := &program{}
+func buildText(s *rs.Schema, mode string) string { return buildNamed(s, mode, "vt", "") }
+
+func buildNamed(s *rs.Schema, mode, name, prefix string) string {
+	p := &program{prefix: prefix}
 	var top string
-	if mode == "deftype" && !s.Typedef {
-		top = p.defType(s, "vt")
+	deftype := mode == "deftype" && !s.Typedef
+	if deftype {
+		top = p.defType(s, name)
 	} else {
-		top = "(set 'vt " + p.makeValidator(s, "vt") + ")"
+		top = p.makeValidator(s, name)
+	}
+	if len(p.lets) > 0 {
+		var b strings.Builder
+		b.WriteString("(let (")
+		for i, l := range p.lets {
+			if i > 0 {
+				b.WriteByte(' ')
+			}
+			b.WriteString("[" + l.name + " " + l.expr + "]")
+		}
+		b.WriteString(") " + top + ")")
+		top = b.String()
+	}
+	if len(p.params) > 0 {
+		names := make([]string, len(p.params))
+		exprs := make([]string, len(p.params))
+		for i, q := range p.params {
+			names[i], exprs[i] = q.name, q.expr
+		}
+		fn := "mk-" + prefix + name
+		p.prelude = append(p.prelude, "(defun "+fn+" ("+strings.Join(names, " ")+") "+top+")")
+		top = "(" + fn + " " + strings.Join(exprs, " ") + ")"
+	}
+	if !deftype {
+		top = "(set '" + name + " " + top + ")"
 	}
 	return typedefs + strings.Join(p.prelude, "\n") + "\n" + top + "\n"
 }
